@@ -50,8 +50,11 @@ theorem jbm_op (nd : Node) (a : A) (nx : Nat) (h : JBm nd a nx) (i : Rid) (inbox
       · exact h.bnd k (List.mem_append_left _ h1)
       · cases o with
         | link s t =>
-          simp only [opCall, newIds, List.mem_singleton] at h1
-          exact hthis k (by simp [tids, pendIds, linkTargets, h1])
+          simp only [opCall, newIds] at h1
+          by_cases e : s = t
+          · simp [e] at h1
+          · simp only [e, if_false, List.mem_singleton] at h1
+            exact hthis k (by simp [tids, pendIds, linkTargets, h1, e])
         | write w q => simp [opCall, newIds] at h1
     · rcases mem_setThread nd.threads i _ _ hg k hk with h1 | h1
       · exact h.bnd k (List.mem_append_right _ h1)
@@ -115,7 +118,7 @@ theorem nlt_tag (lg : Log) (n : Nat) (j : Rid) (th : Thread) (a : A) (h : NLt lg
     · rw [e1] at hq; simp [cellsOfSt, linkedIds] at hq
     simp only [ReqA] at hr'
     cases hst : x.st with
-    | direct w => rw [hst] at hr'; exact hr'.elim
+    | direct w => rw [hst] at hq; simp [cellsOfSt, linkedIds] at hq
     | cells cs =>
       rw [hst] at hr' hq
       obtain ⟨qs, a1, _⟩ := hr'
@@ -127,7 +130,7 @@ theorem nlt_tag (lg : Log) (n : Nat) (j : Rid) (th : Thread) (a : A) (h : NLt lg
     · rw [e3] at ht; simp at ht
     simp only [ReqA] at hr'
     cases hst : x.st with
-    | direct w => rw [hst] at hr'; exact hr'.elim
+    | direct w => rw [hst] at hr'; rw [hr'] at ht; simp at ht
     | cells cs =>
       rw [hst] at hr'
       obtain ⟨qs, _, _, _, _, _, _, a7⟩ := hr'
